@@ -22,6 +22,7 @@ Nothing here looks at local-variable names or statement positions:
 from __future__ import annotations
 
 import ast
+import copy
 from dataclasses import dataclass, field
 from types import SimpleNamespace
 from typing import Any, Callable, Iterable
@@ -222,6 +223,29 @@ def table_sources(prog: Program, fn: FuncInfo, p: Path, expr: ast.AST | None, de
     return None
 
 
+def value_before(fn: Any, names: list[str]) -> list[ast.AST] | None:
+    """Symbolic values of the locals `names` (aliases of one quantity) at the first top-level loop that
+    re-binds one of them, one per path reaching it; None when there is no such top-level loop."""
+    body = list(_strip_doc(fn.body))
+    idx = None
+    for i, st in enumerate(body):
+        if isinstance(st, (ast.For, ast.AsyncFor, ast.While)) and any(
+                isinstance(n, ast.Name) and isinstance(n.ctx, ast.Store) and n.id in names for n in ast.walk(st)):
+            idx = i
+            break
+    if idx is None:
+        return None
+    out: list[ast.AST] = []
+    for p, st in _Sym().block(Path(), body[:idx]):
+        if st != "next":
+            continue
+        bound = [p.env[n] for n in names if n in p.env]
+        if not bound:
+            return None
+        out.extend(bound)
+    return out
+
+
 def prep(prog: Program, qual: str) -> FuncInfo:
     """The anchored function with simple private helpers spliced into it (analysis-only copy; memoised per
     program)."""
@@ -230,8 +254,102 @@ def prep(prog: Program, qual: str) -> FuncInfo:
     got = _MEMO[1].get(qual)
     if got is None:
         fn = prog.func(qual)
-        got = _MEMO[1][qual] = FuncInfo(fn.name, fn.module, inline_helpers(prog, fn), fn.cls, fn.outer)
+        node = inline_helpers(prog, fn, node=splice_blocks(prog, fn))
+        got = _MEMO[1][qual] = FuncInfo(fn.name, fn.module, node, fn.cls, fn.outer)
     return got
+
+
+class _Rename(ast.NodeTransformer):
+    def __init__(self, ren: dict[str, str], sub: dict[str, ast.AST]) -> None:
+        self.ren, self.sub = ren, sub
+
+    def visit_Name(self, node: ast.Name) -> ast.AST:  # noqa: N802
+        if node.id in self.ren:
+            return ast.copy_location(ast.Name(id=self.ren[node.id], ctx=node.ctx), node)
+        if isinstance(node.ctx, ast.Load) and node.id in self.sub:
+            return ast.copy_location(copy.deepcopy(self.sub[node.id]), node)
+        return node
+
+    def visit_Lambda(self, node: ast.Lambda) -> ast.AST:  # noqa: N802
+        bound = {a.arg for a in node.args.args + node.args.kwonlyargs + node.args.posonlyargs}
+        node.body = _Rename({k: v for k, v in self.ren.items() if k not in bound},
+                            {k: v for k, v in self.sub.items() if k not in bound}).visit(node.body)
+        return node
+
+
+def _plain(e: ast.AST) -> bool:
+    """An argument that can stand for the parameter wherever it is read (no call, nothing created)."""
+    return all(isinstance(n, (ast.Name, ast.Attribute, ast.Subscript, ast.Constant, ast.Load, ast.UnaryOp, ast.USub,
+                              ast.BinOp, ast.Mult, ast.Add, ast.Sub)) for n in ast.walk(e))
+
+
+def splice_blocks(prog: Program, fn: FuncInfo, depth: int = 3) -> Any:
+    """Splice private (non-anchored) helpers that are a block of statements with at most one trailing return
+    into the statement whose whole value is the call (expression statement, plain / annotated / augmented
+    assignment, return) — on a copy.  Unlike the engine's splicer this also covers `x += helper(...)` and
+    helpers that re-bind a parameter (`def add(total, ...): total += ...; return total`): every local of the
+    helper, parameters that are re-bound included, gets a name of its own, re-bound parameters are
+    initialised from their argument, the others stand for their (plain) argument."""
+    from ..engine.normalize import ANCHOR_NAMES, _bind, _helper_target, _suite_lists
+
+    root = copy.deepcopy(fn.node)
+    for _ in range(depth):
+        changed = False
+        for suite in list(_suite_lists(root)):
+            i = 0
+            while i < len(suite):
+                st = suite[i]
+                i += 1
+                val = getattr(st, "value", None) if isinstance(
+                    st, (ast.Expr, ast.Assign, ast.AnnAssign, ast.AugAssign, ast.Return)) else None
+                if not isinstance(val, ast.Call):
+                    continue
+                h = _helper_target(prog, fn, val, {})
+                if h is None or h.name in ANCHOR_NAMES or h.name == fn.node.name or isinstance(h, ast.AsyncFunctionDef):
+                    continue
+                if any(not (isinstance(d, ast.Name) and d.id in ("staticmethod", "override")) for d in h.decorator_list):
+                    continue
+                body = _strip_doc(h.body)
+                rets = [n for b in body for n in walk_no_nested(b) if isinstance(n, ast.Return)]
+                if not body or len(body) > 40 or len(rets) > 1 or (rets and rets[0] is not body[-1]):
+                    continue
+                if len(body) == 1 and rets:
+                    continue            # a single expression: the engine's splicer handles it in place
+                binds = _bind(h, val)
+                if binds is None or any(isinstance(n, (ast.Await, ast.Yield, ast.YieldFrom, ast.Global, ast.Nonlocal))
+                                        for b in body for n in ast.walk(b)):
+                    continue
+                tag = h.name.strip("_")
+                stored = {n.id for b in body for n in ast.walk(b) if isinstance(n, ast.Name)
+                          and isinstance(n.ctx, (ast.Store, ast.Del))}
+                ren = {n: f"{n}__{tag}" for n in stored}
+                prelude: list[ast.stmt] = []
+                sub: dict[str, ast.AST] = {}
+                for k, v in binds.items():
+                    if k in stored or not _plain(v):
+                        ren.setdefault(k, f"{k}__{tag}")
+                        prelude.append(ast.Assign(targets=[ast.Name(id=ren[k], ctx=ast.Store())], value=copy.deepcopy(v)))
+                    else:
+                        sub[k] = v
+                rn = _Rename(ren, sub)
+                hb = [rn.visit(copy.deepcopy(b)) for b in body]
+                tail = hb.pop() if rets else None
+                new: list[ast.stmt] = prelude + hb
+                if not isinstance(st, ast.Expr):
+                    st2 = copy.copy(st)
+                    st2.value = tail.value if tail is not None and tail.value is not None else ast.Constant(None)  # type: ignore[union-attr]
+                    new.append(st2)
+                for x in new:
+                    for n in ast.walk(x):
+                        if not hasattr(n, "lineno"):
+                            ast.copy_location(n, st)
+                suite[i - 1:i] = new or [ast.copy_location(ast.Pass(), st)]
+                i = i - 1 + len(new or [1])
+                changed = True
+        if not changed:
+            break
+    ast.fix_missing_locations(root)
+    return root
 
 
 def at(lineno: int) -> Any:
@@ -431,7 +549,7 @@ def _params(fn: FuncInfo) -> list[str]:
 
 def _bounds_result_order(prog: Program, roles: "Roles | None" = None) -> dict[int, str]:
     """index in the result tuple of _inclusion_exclusion_bounds -> 'incl' | 'excl' (from what is stored)."""
-    fn = prep(prog, f"{BDA}._inclusion_exclusion_bounds")
+    fn = prep(prog, q(prog, "ieb"))
     rets = [n for n in walk_no_nested(fn.node) if isinstance(n, ast.Return)]
     names: list[str] | None = None
     for r in rets:
@@ -471,9 +589,9 @@ def _bounds_result_order(prog: Program, roles: "Roles | None" = None) -> dict[in
     return out
 
 
-def _ieb_index(e: ast.AST) -> int | None:
+def _ieb_index(prog: Program, e: ast.AST) -> int | None:
     if isinstance(e, ast.Subscript) and isinstance(e.slice, ast.Constant) and isinstance(e.slice.value, int) \
-            and isinstance(e.value, ast.Call) and callee(e.value) == "self._inclusion_exclusion_bounds":
+            and isinstance(e.value, ast.Call) and callee(e.value) == sc(prog, "ieb"):
         return e.slice.value
     return None
 
@@ -490,28 +608,28 @@ def discover_roles(prog: Program, pow_operand: Callable[[FuncInfo, list[Region]]
     """Bind the bound-table / headroom parameters of the private allocation functions by dataflow."""
     roles = Roles()
     order = _bounds_result_order(prog, roles)
-    dp = prog.func(f"{BDA}._distribute_power")
-    ar = prog.func(f"{BDA}._compute_battery_availability_ratio")
-    mip = prog.func(f"{BDA}._distribute_multi_inverter_pairs")
-    ieb = prog.func(f"{BDA}._inclusion_exclusion_bounds")
+    dp = prog.func(q(prog, "dp"))
+    ar = prog.func(q(prog, "ar"))
+    mip = prog.func(q(prog, "mip"))
+    ieb = prog.func(q(prog, "ieb"))
     entry_args = roles.entry_args
     entry_paths: dict[str, Path] = {}
     flags: set[str] = set()
     ieb_calls: dict[str, dict[str, ast.AST]] = {}
-    for fname in ("_distribute_consume_power", "_distribute_supply_power"):
-        fn = prep(prog, f"{BDA}.{fname}")
+    for fname in ("consume", "supply"):
+        fn = prep(prog, q(prog, fname))
         regs = regions(fn.node)
         seen: dict[str, str] = {}
-        for _r, _p, e in all_calls(regs, "self._inclusion_exclusion_bounds"):
+        for _r, _p, e in all_calls(regs, sc(prog, "ieb")):
             ieb_calls[fname] = positional(e.node, _params(ieb))  # type: ignore[arg-type]
             flags |= {k for k, a in ieb_calls[fname].items() if isinstance(a, ast.Constant) and isinstance(a.value, bool)}
-        dcalls = the_call(regs, "self._distribute_power", fn)
+        dcalls = the_call(regs, sc(prog, "dp"), fn)
         for _r, cp, e in [c for c in dcalls if c[0].kind == "top"] or dcalls:
             args = positional(e.node, _params(dp))  # type: ignore[arg-type]
             entry_args[fname] = args
             entry_paths[fname] = cp
             for prm, a in args.items():
-                i = _ieb_index(a)
+                i = _ieb_index(prog, a)
                 if i is not None:
                     if i not in order:
                         raise AnalysisError(f"{fn.qual}: result index {i} of _inclusion_exclusion_bounds")
@@ -539,9 +657,9 @@ def discover_roles(prog: Program, pow_operand: Callable[[FuncInfo, list[Region]]
     dregs = regions(dpn.node)
     inv = {v: k for k, v in roles.dp.items()}
     ar_args = [positional(e.node, _params(ar)) for _r, _p, e in the_call(  # type: ignore[arg-type]
-        dregs, "self._compute_battery_availability_ratio", dp)]
+        dregs, sc(prog, "ar"), dp)]
     mip_args = [positional(e.node, _params(mip)) for _r, _p, e in the_call(  # type: ignore[arg-type]
-        dregs, "self._distribute_multi_inverter_pairs", dp, "C02.INV")]
+        dregs, sc(prog, "mip"), dp, "C02.INV")]
     for args, dst, need in ((ar_args, roles.ar, ("excl",)), (mip_args, roles.mip, ("incl", "excl"))):
         for a in args:
             for prm, v in a.items():
